@@ -177,6 +177,7 @@ pub struct RunResult {
     pub intact_checks: u64,
     pub final_free_checks: u64,
     pub refs_checks: u64,
+    pub c03_checks: u64,
     pub max_since_write: u64,
     pub b_budget: u64,
     pub op_events: Vec<Vec<(String, usize)>>,
@@ -341,6 +342,20 @@ fn worker(me: usize, arena: sync::Arena, prog: Vec<POp>, hid_base: u64) {
                     if cap > 0 && matches!(req, Req::Bytes(_)) {
                         let m = unsafe { std::slice::from_raw_parts((base + off as usize) as *const u8, cap as usize) };
                         zero_ok = m.iter().all(|b| *b == 0);
+                    }
+                    // C03 under concurrency: requested capacity and alignment
+                    {
+                        let (need_exact, need_min, align, tsize) = match req {
+                            Req::Bytes(n) => (Some(*n as u64), *n as u64, 1u32, 0u32),
+                            Req::Aligned { size, align, extra } => (None, *size as u64 + *extra as u64, *align, *size),
+                            Req::Typed { size, align } => (Some(*size as u64), *size as u64, *align, *size),
+                        };
+                        let mut c = lock();
+                        c.c03_checks += 1;
+                        if need_exact.map_or(false, |x| x != cap as u64) || (cap as u64) < need_min || (tsize > 0 && align > 1 && off % align != 0) {
+                            let msg = format!("T{} {:?} returned [{},+{}) (buffer offset {}): needs {} bytes aligned to {}", me, req, off, cap, boff, need_min, align);
+                            c.viol(&["C03"], "capacity-or-alignment-concurrent".into(), msg);
+                        }
                     }
                     let data = pat(hid, 1, cap as usize);
                     register_alloc(me, hid, off, cap, boff, kind, data.clone());
@@ -846,6 +861,7 @@ pub fn run_once(rc: &RunCfg, replay: Option<Vec<u8>>) -> RunResult {
         intact_checks: c.intact_checks,
         final_free_checks: c.final_free_checks,
         refs_checks: c.refs_checks,
+        c03_checks: c.c03_checks,
         max_since_write: c.max_since_write_seen,
         b_budget: c.b_budget,
         op_events: vec![],
@@ -902,6 +918,68 @@ pub fn top_race_cfg(rng: &mut Rng, seed: u64, run: u64) -> RunCfg {
         seed,
         run,
         main_drops_first: rng.bool(),
+    }
+}
+
+/// "fresh aligned": everything comes from fresh space; 1- and 3-byte allocations keep changing the
+/// residue of the cursor while other threads make aligned / typed allocations (lost CAS + retry paths)
+pub fn fresh_aligned_cfg(rng: &mut Rng, seed: u64, run: u64) -> RunCfg {
+    let threads = 2 + rng.usize(3);
+    let mut programs = vec![];
+    for t in 0..threads {
+        let mut p = vec![];
+        let mut occ = [false; 4];
+        for _ in 0..rng.range(14, 36) {
+            let free: Vec<usize> = (0..4).filter(|i| !occ[*i]).collect();
+            let used: Vec<usize> = (0..4).filter(|i| occ[*i]).collect();
+            if (rng.below(100) < 65 || used.is_empty()) && !free.is_empty() {
+                let slot = *rng.pick(&free);
+                occ[slot] = true;
+                let req_ty = if (t + rng.usize(3)) % 2 == 0 {
+                    (Req::Bytes(*rng.pick(&[1u32, 1, 3, 5, 2])), 0u8)
+                } else if rng.bool() {
+                    let ty = *rng.pick(&[8u8, 11, 6, 4, 12]);
+                    let ti = ty_info(ty);
+                    (Req::Aligned { size: ti.size, align: ti.align, extra: *rng.pick(&[0u32, 1, 3, 8, 13]) }, ty)
+                } else {
+                    let ty = *rng.pick(&[8u8, 9, 11, 6]);
+                    let ti = ty_info(ty);
+                    (Req::Typed { size: ti.size, align: ti.align }, ty)
+                };
+                p.push(POp::Alloc { slot, req: req_ty.0, ty: req_ty.1, owned: rng.chance(1, 5) });
+            } else if !used.is_empty() {
+                let slot = *rng.pick(&used);
+                occ[slot] = false;
+                if rng.chance(1, 3) {
+                    p.push(POp::DetachDrop { slot });
+                } else {
+                    p.push(POp::Drop { slot });
+                }
+            }
+        }
+        programs.push(p);
+    }
+    RunCfg {
+        freelist: *rng.pick(&[FL::None, FL::Optimistic, FL::Pessimistic]),
+        unify: rng.bool(),
+        min_seg: 20,
+        cap_room: 2048,
+        retries: 5,
+        threads,
+        prelude_blocks: 0,
+        top_room: 2048,
+        family_b: true,
+        programs,
+        strategy: match rng.below(6) {
+            0 => Strategy::Random(30),
+            1 | 2 => Strategy::Random(70),
+            3 | 4 => Strategy::Random(85),
+            _ => Strategy::Pct(2),
+        },
+        spurious_pct: if rng.chance(1, 3) { 15 } else { 0 },
+        seed,
+        run,
+        main_drops_first: false,
     }
 }
 
@@ -1010,10 +1088,11 @@ fn report_run(out: &mut Out, prop: &str, rc: &RunCfg, r: &RunResult, extra_args:
     out.add("intact_checks", r.intact_checks);
     out.add("final_free_checks", r.final_free_checks);
     out.add("refs_checks", r.refs_checks);
+    out.add("c03_concurrent_checks", r.c03_checks);
     out.add("spurious_cas_failures_injected", r.spurious);
     out.maxv("max_accesses_without_progress_in_a_completed_call", r.max_since_write);
     out.maxv("progress_budget_B", r.b_budget);
-    out.inc(&format!("family.{}", if rc.family_b { "B" } else if rc.prelude_blocks == 0 && rc.cap_room == 256 && rc.min_seg == 20 && rc.retries == 1 { "T" } else if rc.prelude_blocks == 6 && rc.cap_room == 512 && rc.min_seg == 8 && rc.top_room == 0 && rc.spurious_pct == 0 && !rc.main_drops_first && rc.retries == 5 { "P" } else { "A" }));
+    out.inc(&format!("family.{}", if rc.family_b && rc.top_room == 2048 { "F" } else if rc.family_b { "B" } else if rc.prelude_blocks == 0 && rc.cap_room == 256 && rc.min_seg == 20 && rc.retries == 1 { "T" } else if rc.prelude_blocks == 6 && rc.cap_room == 512 && rc.min_seg == 8 && rc.top_room == 0 && rc.spurious_pct == 0 && !rc.main_drops_first && rc.retries == 5 { "P" } else { "A" }));
     out.inc(&format!("freelist.{}", rc.freelist.name()));
     out.inc(&format!("threads.{}", rc.threads));
     out.inc(&format!("strategy.{}", match rc.strategy { Strategy::Random(p) => format!("random{}", p), Strategy::Pct(d) => format!("pct{}", d), Strategy::Pause { .. } => "pause".into(), Strategy::Delay(q, m) => format!("delay{}-{}", q, m) }));
@@ -1085,7 +1164,7 @@ pub fn child_main(args: &Args) -> i32 {
             break;
         }
         let mut rng = Rng::derive(seed, run, if fam == "B" { 0xB } else { 0xA });
-        let mut rc = if fam == "T" { top_race_cfg(&mut rng, seed, run) } else if fam == "P" { list_contention_cfg(&mut rng, seed, run) } else { sample_run_cfg(&mut rng, seed, run, &prop, fam == "B") };
+        let mut rc = if fam == "T" { top_race_cfg(&mut rng, seed, run) } else if fam == "P" { list_contention_cfg(&mut rng, seed, run) } else if fam == "F" { fresh_aligned_cfg(&mut rng, seed, run) } else { sample_run_cfg(&mut rng, seed, run, &prop, fam == "B") };
         if let Some(p) = args.kv.get("pause") {
             let v: Vec<usize> = p.split(',').filter_map(|x| x.parse().ok()).collect();
             if v.len() == 3 {
